@@ -280,6 +280,9 @@ func buildNative(tmp, pkg string, harnessFuncs []string) (string, error) {
 	tag := strings.ReplaceAll(pkg, "/", "_")
 	// every harness directory is overlaid (harnesses of one package use accessors injected into others)
 	for dir, files := range hf {
+		if dir == "zz_verif_model" {
+			continue
+		}
 		for _, f := range files {
 			ov[filepath.Join(repoDir, dir, "zz_verif_"+filepath.Base(f))] = f
 		}
@@ -546,7 +549,7 @@ func replayMain(args []string) int {
 	// engine-concrete
 	cfg := rf.Harness
 	cfg.Pin = rf.Model
-	prog, err := loadProgram([]string{"./" + cfg.Pkg})
+	prog, err := loadProgram([]string{"./" + cfg.Pkg, "./zz_verif_model"})
 	if err != nil {
 		fmt.Println(err)
 		return 2
